@@ -195,10 +195,17 @@ def argInt (ts : List String) (k : String) : Option Int :=
   ts.findSome? (fun t => match t.splitOn "=" with | [a, b] => if a == k then b.toInt? else none | _ => none)
 
 /-- bookkeeping at an operation line (before its observation) -/
-def noteOp (m : Mon) (label : String) (args : List String) (ok : Bool) (_prev : Option Obs) : Mon :=
+def noteOp (m : Mon) (label : String) (args : List String) (ok : Bool) (prev : Option Obs) : Mon :=
   let m := { m with lastArgs := args }
   match label with
   | "redeem" => if ok then { m with broughtIn := m.broughtIn + (argInt args "chips").getD 0 } else m
+  | "reserve" =>
+    -- a re-buy (the player is at the table already): what was brought in is what the call said, whether or not an
+    -- observation follows at once (re-buys from inside a notification, re-buys queued behind an open)
+    let known := match prev, argNat args "id" with
+      | some p, some id => p.players.any (·.id == id)
+      | _, _ => false
+    if ok && known then { m with broughtIn := m.broughtIn + (argInt args "chips").getD 0 } else m
   | "close" => { m with closedSeen := true }
   | "release" => { m with closedSeen := true }
   | "pause" => { m with pausedByUser := true }
@@ -300,11 +307,9 @@ def onObs (m : Mon) (label : String) (ok : Bool) (membership : Bool) (prev : Opt
       if label == "reserve" || label == "update" || label == "leave" then
         let gone := p.players.filter (fun q => !(o.players.any (·.id == q.id)))
         let came := o.players.filter (fun q => !(p.players.any (·.id == q.id)))
-        let rebuy : Int := if label == "reserve" && ok && came.isEmpty then
-            (o.players.map (fun q => match p.players.find? (·.id == q.id) with | some q0 => q.bankroll - q0.bankroll | none => 0)).sum
-          else 0
+        -- (re-buys of players already at the table are booked by `noteOp`, from the amount the call named)
         { m with takenOut := m.takenOut + (gone.map (·.bankroll)).sum,
-                 broughtIn := m.broughtIn + (came.map (·.bankroll)).sum + rebuy }
+                 broughtIn := m.broughtIn + (came.map (·.bankroll)).sum }
       else m
     | none => m
   let v1 := if noHand o && totalBankroll o != m.broughtIn - m.takenOut then ["C01.ledger-does-not-balance-between-hands"] else []
